@@ -1015,4 +1015,827 @@ theorem gemvOps_eq (lAct rAct : Bool) (L : Mat α) (x : Vec α) (i : Nat) :
 
 end Stmts
 
+/-! ### the statements an active product records (`gemvRecord`, `gemmRecord`, `bandVRecord`) -/
+
+section Tape
+variable {α : Type} [Add α] [Mul α] [Zero α]
+
+theorem flatMap_congr' {β γ : Type} {l : List β} {f g : β → List γ} (h : ∀ a ∈ l, f a = g a) : l.flatMap f = l.flatMap g := by
+  induction l with
+  | nil => rfl
+  | cons a l ih =>
+    rw [List.flatMap_cons, List.flatMap_cons, h a (List.mem_cons_self ..), ih (fun x hx => h x (List.mem_cons_of_mem _ hx))]
+
+theorem pairs_congr {β : Type} {m n : Nat} {f g : Nat → Nat → β} (h : ∀ p q, p < m → q < n → f p q = g p q) :
+    pairs m n f = pairs m n g := by
+  unfold pairs
+  apply flatMap_congr'
+  intro p hp
+  apply List.map_congr_left
+  intro q hq
+  exact h p q (List.mem_range.1 hp) (List.mem_range.1 hq)
+
+theorem pushDependence_eq (blk : Buf) (idx : Int) (mult : Int → α) (m0 : Int) (n : Nat) (is ms : Int) :
+    pushDependence blk idx mult m0 n is ms =
+      (List.range n).map (fun (l : Nat) => (mult (m0 + (l : Int) * ms), (⟨blk, idx + (l : Int) * is⟩ : Ptr))) := by
+  unfold pushDependence pushDep
+  simp only [List.map_map]
+  rfl
+
+/-- closed form of the matrix · vector recording loop: statement `i` has the left-hand side `C + addr ans [i]` and the
+    operations `x[k]·d L[i,k]` then `L[i,k]·d x[k]` -/
+theorem gemvRecord_eq (gl gr : Grad) (L : Mat α) (x : Vec α) (ans : View1) :
+    gemvRecord gl gr L x ans =
+      if gl.act || gr.act then
+        (List.range ans.d).map (fun (i : Nat) =>
+          ({ lhs := ⟨.C, ans.addr i⟩,
+             ops := (if gl.act then (List.range x.v.d).map (fun (k : Nat) => (x.get k, gl.idx (L.v.addr i k))) else []) ++
+                    (if gr.act then (List.range x.v.d).map (fun (k : Nat) => (L.get i k, gr.idx (x.v.addr k))) else []) } : Stmt α))
+      else [] := by
+  unfold gemvRecord
+  split
+  · apply List.map_congr_left
+    intro i _
+    simp only [pushDependence_eq]
+    congr 2
+    · split
+      · apply List.map_congr_left
+        intro k _
+        simp only [Vec.get, View1.addr, Grad.idx, View2.addr]
+        congr 2
+        omega
+      · rfl
+    · split
+      · apply List.map_congr_left
+        intro k _
+        simp only [Mat.get, View1.addr, Grad.idx, View2.addr]
+        congr 2
+        omega
+      · rfl
+  · rfl
+
+/-- closed form of the matrix · matrix recording loop -/
+theorem gemmRecord_eq (gl gr : Grad) (L Rm : Mat α) (ans : View2) :
+    gemmRecord gl gr L Rm ans =
+      if gl.act || gr.act then
+        pairs ans.d0 ans.d1 (fun (i j : Nat) =>
+          ({ lhs := ⟨.C, ans.addr i j⟩,
+             ops := (if gl.act then (List.range Rm.v.d0).map (fun (k : Nat) => (Rm.get k j, gl.idx (L.v.addr i k))) else []) ++
+                    (if gr.act then (List.range Rm.v.d0).map (fun (k : Nat) => (L.get i k, gr.idx (Rm.v.addr k j))) else []) } : Stmt α))
+      else [] := by
+  unfold gemmRecord
+  split
+  · apply pairs_congr
+    intro i j _ _
+    simp only [pushDependence_eq]
+    congr 2
+    · split
+      · apply List.map_congr_left
+        intro k _
+        apply Prod.ext
+        · show Rm.mem _ = Rm.mem _
+          congr 1
+          simp only [View2.addr]
+          omega
+        · show (⟨gl.blk, _⟩ : Ptr) = ⟨gl.blk, _⟩
+          congr 1
+          simp only [View2.addr]
+          omega
+      · rfl
+    · split
+      · apply List.map_congr_left
+        intro k _
+        apply Prod.ext
+        · show L.mem _ = L.mem _
+          congr 1
+        · show (⟨gr.blk, _⟩ : Ptr) = ⟨gr.blk, _⟩
+          congr 1
+          simp only [View2.addr]
+          omega
+      · rfl
+  · rfl
+
+/-- the in-band column range of row `i` as `matmul_band` computes it is exactly the set of in-band columns -/
+theorem band_range_iff {kl ku dim i : Nat} (hi : i < dim) (k : Nat) :
+    (bandJStart kl i ≤ k ∧ k < bandJEnd ku dim i) ↔ (k < dim ∧ k ≤ i + ku ∧ i ≤ k + kl) := by
+  unfold bandJStart bandJEnd
+  split <;> split <;> omega
+
+theorem band_range_le {kl ku dim i : Nat} (hi : i < dim) :
+    bandJStart kl i ≤ i ∧ i < bandJEnd ku dim i ∧ bandJEnd ku dim i ≤ dim := by
+  unfold bandJStart bandJEnd
+  split <;> split <;> omega
+
+/-- closed form of the band · active-vector recording loop: statement `i` has the operations `B.mem(cell i k)·d x[k]`
+    for `k = j_start, …, j_end_plus_1 − 1`, both storage orders -/
+theorem bandVRecord_eq (b : Band α) (gr : Grad) (x : Vec α) (ans : View1) :
+    bandVRecord b gr x ans =
+      if gr.act then
+        (List.range ans.d).map (fun (i : Nat) =>
+          ({ lhs := ⟨.C, ans.addr i⟩,
+             ops := (List.range (bandJEnd b.ku b.dim i - bandJStart b.kl i)).map (fun (l : Nat) =>
+                      (b.mem (b.cell i (bandJStart b.kl i + l)), gr.idx (x.v.addr (bandJStart b.kl i + l)))) } : Stmt α))
+      else [] := by
+  unfold bandVRecord
+  split
+  · apply List.map_congr_left
+    intro i _
+    simp only [pushDependence_eq]
+    congr 1
+    apply List.map_congr_left
+    intro l _
+    apply Prod.ext
+    · show b.mem _ = b.mem _
+      congr 1
+      cases hb : b.rowMajor <;> simp only [Band.cell, hb, Bool.false_eq_true, if_false, if_true] <;> push_cast <;> ring
+    · show (⟨gr.blk, _⟩ : Ptr) = ⟨gr.blk, _⟩
+      congr 1
+      simp only [View1.addr]
+      push_cast
+      ring
+  · rfl
+
+/-- the statement of result element `(i,j)` of a matrix · matrix product in closed form -/
+def gemmStmt (gl gr : Grad) (L Rm : Mat α) (ans : View2) (i j : Nat) : Stmt α :=
+  { lhs := ⟨.C, ans.addr i j⟩,
+    ops := (if gl.act then (List.range Rm.v.d0).map (fun (k : Nat) => (Rm.get k j, gl.idx (L.v.addr i k))) else []) ++
+           (if gr.act then (List.range Rm.v.d0).map (fun (k : Nat) => (L.get i k, gr.idx (Rm.v.addr k j))) else []) }
+
+/-- the statement of result element `i` of a matrix · vector product in closed form -/
+def gemvStmt (gl gr : Grad) (L : Mat α) (x : Vec α) (ans : View1) (i : Nat) : Stmt α :=
+  { lhs := ⟨.C, ans.addr i⟩,
+    ops := (if gl.act then (List.range x.v.d).map (fun (k : Nat) => (x.get k, gl.idx (L.v.addr i k))) else []) ++
+           (if gr.act then (List.range x.v.d).map (fun (k : Nat) => (L.get i k, gr.idx (x.v.addr k))) else []) }
+
+/-- the statement of result element `i` of a band · active-vector product in closed form -/
+def bandStmt (b : Band α) (gr : Grad) (x : Vec α) (ans : View1) (i : Nat) : Stmt α :=
+  { lhs := ⟨.C, ans.addr i⟩,
+    ops := (List.range (bandJEnd b.ku b.dim i - bandJStart b.kl i)).map (fun (l : Nat) =>
+             (b.mem (b.cell i (bandJStart b.kl i + l)), gr.idx (x.v.addr (bandJStart b.kl i + l)))) }
+
+theorem gemmRecord_eq' (gl gr : Grad) (L Rm : Mat α) (ans : View2) (h : (gl.act || gr.act) = true) :
+    gemmRecord gl gr L Rm ans = pairs ans.d0 ans.d1 (gemmStmt gl gr L Rm ans) := by
+  rw [gemmRecord_eq, if_pos h]; rfl
+
+theorem gemvRecord_eq' (gl gr : Grad) (L : Mat α) (x : Vec α) (ans : View1) (h : (gl.act || gr.act) = true) :
+    gemvRecord gl gr L x ans = (List.range ans.d).map (gemvStmt gl gr L x ans) := by
+  rw [gemvRecord_eq, if_pos h]; rfl
+
+theorem bandVRecord_eq' (b : Band α) (gr : Grad) (x : Vec α) (ans : View1) (h : gr.act = true) :
+    bandVRecord b gr x ans = (List.range ans.d).map (bandStmt b gr x ans) := by
+  rw [bandVRecord_eq, if_pos h]; rfl
+
+end Tape
+
+/-! ### the differential a recorded statement denotes -/
+
+section TapeDiff
+variable {α : Type} [CommRing α]
+
+/-- `Σ m·d(idx)` over a list of operations -/
+def opsVal (ops : List (α × Ptr)) (d : Ptr → α) : α := ops.foldr (fun p acc => p.1 * d p.2 + acc) 0
+
+theorem Stmt.diff_eq (s : Stmt α) (d : Ptr → α) : s.diff d = opsVal s.ops d := rfl
+
+theorem opsVal_nil (d : Ptr → α) : opsVal ([] : List (α × Ptr)) d = 0 := rfl
+
+theorem opsVal_cons (p : α × Ptr) (l : List (α × Ptr)) (d : Ptr → α) : opsVal (p :: l) d = p.1 * d p.2 + opsVal l d := rfl
+
+theorem opsVal_append (a b : List (α × Ptr)) (d : Ptr → α) : opsVal (a ++ b) d = opsVal a d + opsVal b d := by
+  induction a with
+  | nil => simp [opsVal_nil]
+  | cons p a ih => simp only [List.cons_append, opsVal_cons, ih]; ring
+
+theorem opsVal_range_map (f : Nat → α × Ptr) (n : Nat) (d : Ptr → α) :
+    opsVal ((List.range n).map f) d = sumTo (fun k => (f k).1 * d (f k).2) n := by
+  induction n with
+  | zero => rfl
+  | succ n ih =>
+    rw [List.range_succ, List.map_append, opsVal_append, ih]
+    simp only [List.map_cons, List.map_nil, opsVal_cons, opsVal_nil, sumTo]
+    ring
+
+/-- the value depends on `d` only at the gradient indices the operations name -/
+theorem opsVal_congr {ops : List (α × Ptr)} {d d' : Ptr → α} (h : ∀ op ∈ ops, d op.2 = d' op.2) : opsVal ops d = opsVal ops d' := by
+  induction ops with
+  | nil => rfl
+  | cons p l ih =>
+    rw [opsVal_cons, opsVal_cons, h p (List.mem_cons_self ..), ih (fun op hop => h op (List.mem_cons_of_mem _ hop))]
+
+theorem sumTo_add (f g : Nat → α) (n : Nat) : sumTo (fun k => f k + g k) n = sumTo f n + sumTo g n := by
+  induction n with
+  | zero => simp [sumTo]
+  | succ n ih => simp only [sumTo, ih]; ring
+
+theorem sumTo_zero (n : Nat) : sumTo (fun _ => (0 : α)) n = 0 := by
+  induction n with
+  | zero => rfl
+  | succ n ih => simp [sumTo, ih]
+
+theorem sumTo_mul_left (c : α) (f : Nat → α) (n : Nat) : sumTo (fun k => c * f k) n = c * sumTo f n := by
+  induction n with
+  | zero => simp [sumTo]
+  | succ n ih => simp only [sumTo, ih]; ring
+
+/-- terms below `js` vanish: the sum may start at `js` -/
+theorem sumTo_zero_below (f : Nat → α) (js n : Nat) (h : ∀ k, k < js → f k = 0) :
+    sumTo f (js + n) = sumTo (fun l => f (js + l)) n := by
+  induction n with
+  | zero =>
+    show sumTo f js = 0
+    rw [sumTo_congr (g := fun _ => (0 : α)) (fun l hl => h l hl), sumTo_zero]
+  | succ n ih =>
+    show sumTo f (js + n) + f (js + n) = sumTo (fun l => f (js + l)) n + f (js + n)
+    rw [ih]
+
+/-- terms from `je` on vanish: the sum may stop at `je` -/
+theorem sumTo_zero_above (f : Nat → α) (je m : Nat) (h : ∀ k, je ≤ k → f k = 0) : sumTo f (je + m) = sumTo f je := by
+  induction m with
+  | zero => rfl
+  | succ m ih =>
+    show sumTo f (je + m) + f (je + m) = _
+    rw [ih, h _ (Nat.le_add_right _ _), add_zero]
+
+/-- a sum whose terms vanish outside the window `[js, je)` -/
+theorem sumTo_window (f : Nat → α) {js je dim : Nat} (h1 : js ≤ je) (h2 : je ≤ dim)
+    (h : ∀ k, k < dim → ¬ (js ≤ k ∧ k < je) → f k = 0) :
+    sumTo f dim = sumTo (fun l => f (js + l)) (je - js) := by
+  -- cut the terms at and beyond `dim` first so that the hypothesis applies everywhere
+  let g : Nat → α := fun k => if k < dim then f k else 0
+  have hg : sumTo f dim = sumTo g dim := sumTo_congr (fun l hl => by simp [g, hl])
+  have hg0 : ∀ k, ¬ (js ≤ k ∧ k < je) → g k = 0 := by
+    intro k hk
+    by_cases hd : k < dim
+    · simp only [g, hd, if_true]; exact h k hd hk
+    · simp [g, hd]
+  rw [hg, show dim = je + (dim - je) by omega, sumTo_zero_above g je _ (fun k hk => hg0 k (by omega)),
+    show je = js + (je - js) by omega, sumTo_zero_below g js _ (fun k hk => hg0 k (by omega))]
+  have : js + (je - js) - js = je - js := by omega
+  rw [this]
+  apply sumTo_congr
+  intro l hl
+  have : js + l < dim := by omega
+  simp [g, this]
+
+/-- **the differential of the defining sum.**  Perturbing the factors of `Σₖ aₖ·bₖ` by `ε·da`, `ε·db` changes it by
+    `ε·Σₖ (bₖ·daₖ + aₖ·dbₖ)` up to the second-order term: the first-order coefficient is what a statement records -/
+theorem sumTo_product_rule (a b da db : Nat → α) (e : α) (n : Nat) :
+    sumTo (fun k => (a k + e * da k) * (b k + e * db k)) n =
+      sumTo (fun k => a k * b k) n + e * sumTo (fun k => b k * da k + a k * db k) n + e * e * sumTo (fun k => da k * db k) n := by
+  induction n with
+  | zero => simp [sumTo]
+  | succ n ih => simp only [sumTo, ih]; ring
+
+/-- the differential denoted by the statement of result element `(i,j)` of a dense matrix · matrix product -/
+theorem gemm_stmt_diff (gl gr : Grad) (L Rm : Mat α) (i j : Nat) (d : Ptr → α) :
+    opsVal ((if gl.act then (List.range Rm.v.d0).map (fun (k : Nat) => (Rm.get k j, gl.idx (L.v.addr i k))) else []) ++
+            (if gr.act then (List.range Rm.v.d0).map (fun (k : Nat) => (L.get i k, gr.idx (Rm.v.addr k j))) else [])) d =
+      sumTo (fun k => (if gl.act then Rm.get k j * d (gl.idx (L.v.addr i k)) else 0) +
+                      (if gr.act then L.get i k * d (gr.idx (Rm.v.addr k j)) else 0)) Rm.v.d0 := by
+  rw [opsVal_append, sumTo_add]
+  congr 1
+  · cases gl.act
+    · simp [opsVal_nil, sumTo_zero]
+    · simp only [if_true]; exact opsVal_range_map _ _ _
+  · cases gr.act
+    · simp [opsVal_nil, sumTo_zero]
+    · simp only [if_true]; exact opsVal_range_map _ _ _
+
+theorem gemv_stmt_diff (gl gr : Grad) (L : Mat α) (x : Vec α) (i : Nat) (d : Ptr → α) :
+    opsVal ((if gl.act then (List.range x.v.d).map (fun (k : Nat) => (x.get k, gl.idx (L.v.addr i k))) else []) ++
+            (if gr.act then (List.range x.v.d).map (fun (k : Nat) => (L.get i k, gr.idx (x.v.addr k))) else [])) d =
+      sumTo (fun k => (if gl.act then x.get k * d (gl.idx (L.v.addr i k)) else 0) +
+                      (if gr.act then L.get i k * d (gr.idx (x.v.addr k)) else 0)) x.v.d := by
+  rw [opsVal_append, sumTo_add]
+  congr 1
+  · cases gl.act
+    · simp [opsVal_nil, sumTo_zero]
+    · simp only [if_true]; exact opsVal_range_map _ _ _
+  · cases gr.act
+    · simp [opsVal_nil, sumTo_zero]
+    · simp only [if_true]; exact opsVal_range_map _ _ _
+
+/-- the band statement of row `i` denotes `Σₖ B[i,k]·d x[k]` over ALL `k < dim`: the terms it omits are those where
+    `B[i,k]` is structurally zero -/
+theorem band_stmt_diff (b : Band α) (gr : Grad) (x : Vec α) {i : Nat} (hi : i < b.dim) (d : Ptr → α) :
+    opsVal ((List.range (bandJEnd b.ku b.dim i - bandJStart b.kl i)).map (fun (l : Nat) =>
+              (b.mem (b.cell i (bandJStart b.kl i + l)), gr.idx (x.v.addr (bandJStart b.kl i + l))))) d =
+      sumTo (fun k => b.get i k * d (gr.idx (x.v.addr k))) b.dim := by
+  rw [opsVal_range_map]
+  obtain ⟨h1, h2, h3⟩ := band_range_le (kl := b.kl) (ku := b.ku) hi
+  rw [sumTo_window (fun k => b.get i k * d (gr.idx (x.v.addr k))) (js := bandJStart b.kl i) (je := bandJEnd b.ku b.dim i)
+    (by omega) h3]
+  · apply sumTo_congr
+    intro l hl
+    have hin := (band_range_iff (kl := b.kl) (ku := b.ku) hi (bandJStart b.kl i + l)).1 ⟨by omega, by omega⟩
+    simp only [Band.get]
+    rw [if_neg (by omega)]
+  · intro k hk hout
+    have : ¬ (k < b.dim ∧ k ≤ i + b.ku ∧ i ≤ k + b.kl) := fun hh => hout ((band_range_iff hi k).2 hh)
+    simp only [Band.get]
+    rw [if_pos (by omega), zero_mul]
+
+end TapeDiff
+
+/-! ### the tangent-linear sweep over what a product records -/
+
+section Forward
+variable {α : Type} [CommRing α]
+
+theorem fwd_cons (s : Stmt α) (S : List (Stmt α)) (d : Ptr → α) : fwd (s :: S) d = fwd S (fwdStep d s) := rfl
+
+theorem fwd_append (A B : List (Stmt α)) (d : Ptr → α) : fwd (A ++ B) d = fwd B (fwd A d) := by
+  unfold fwd; rw [List.foldl_append]
+
+/-- a gradient index no statement assigns keeps its differential -/
+theorem fwd_frame {S : List (Stmt α)} {d : Ptr → α} {p : Ptr} (h : ∀ s ∈ S, s.lhs ≠ p) : fwd S d p = d p := by
+  induction S generalizing d with
+  | nil => rfl
+  | cons s0 S ih =>
+    rw [fwd_cons, ih (fun s hs => h s (List.mem_cons_of_mem _ hs))]
+    unfold fwdStep
+    rw [if_neg (fun e => h s0 (List.mem_cons_self ..) e.symm)]
+
+/-- statements that never read what any of them assigns, with left-hand sides that determine the statement: after the
+    sweep every left-hand side holds the value of its own statement on the incoming differentials -/
+theorem fwd_hit {S : List (Stmt α)} (hR : ∀ s ∈ S, ∀ op ∈ s.ops, ∀ s' ∈ S, s'.lhs ≠ op.2)
+    (hinj : ∀ s ∈ S, ∀ s' ∈ S, s.lhs = s'.lhs → s = s') (d : Ptr → α) : ∀ s ∈ S, fwd S d s.lhs = s.diff d := by
+  induction S generalizing d with
+  | nil => intro s hs; cases hs
+  | cons s0 S ih =>
+    intro s hs
+    rw [fwd_cons]
+    have hdiff : ∀ s' ∈ s0 :: S, s'.diff (fwdStep d s0) = s'.diff d := by
+      intro s' hs'
+      apply opsVal_congr
+      intro op hop
+      unfold fwdStep
+      rw [if_neg (fun e => hR s' hs' op hop s0 (List.mem_cons_self ..) e.symm)]
+    have ih' := ih (fun a ha op hop b hb => hR a (List.mem_cons_of_mem _ ha) op hop b (List.mem_cons_of_mem _ hb))
+      (fun a ha b hb => hinj a (List.mem_cons_of_mem _ ha) b (List.mem_cons_of_mem _ hb)) (fwdStep d s0)
+    by_cases hex : ∃ s' ∈ S, s'.lhs = s.lhs
+    · obtain ⟨s', hs', e⟩ := hex
+      have : s' = s := hinj s' (List.mem_cons_of_mem _ hs') s hs e
+      subst this
+      rw [ih' s' hs', hdiff s' hs]
+    · rw [fwd_frame (fun s' hs' e => hex ⟨s', hs', e⟩)]
+      have hs0 : s = s0 := by
+        rcases List.mem_cons.1 hs with h | h
+        · exact h
+        · exact absurd ⟨s, h, rfl⟩ hex
+      subst hs0
+      unfold fwdStep
+      rw [if_pos rfl]
+
+/-- cells of a packed row-major array: distinct elements have distinct cells, all inside the allocation -/
+theorem rowmajor_inj {o0 : Int} {d1 : Nat} (h : (d1 : Int) ≤ o0) {i k i' k' : Nat} (hk : k < d1) (hk' : k' < d1)
+    (e : (i : Int) * o0 + (k : Int) = (i' : Int) * o0 + (k' : Int)) : i = i' ∧ k = k' := by
+  have hi : i = i' := by
+    rcases Nat.lt_trichotomy i i' with hlt | heq | hgt
+    · exfalso
+      have h1 : ((i : Int) + 1) * o0 ≤ (i' : Int) * o0 := Int.mul_le_mul_of_nonneg_right (by omega) (by omega)
+      have h2 : ((i : Int) + 1) * o0 = (i : Int) * o0 + o0 := by ring
+      omega
+    · exact heq
+    · exfalso
+      have h1 : ((i' : Int) + 1) * o0 ≤ (i : Int) * o0 := Int.mul_le_mul_of_nonneg_right (by omega) (by omega)
+      have h2 : ((i' : Int) + 1) * o0 = (i' : Int) * o0 + o0 := by ring
+      omega
+  subst hi
+  exact ⟨rfl, by omega⟩
+
+theorem rowmajor_bound {o0 : Int} {d0 d1 : Nat} (h : (d1 : Int) ≤ o0) {i k : Nat} (hi : i < d0) (hk : k < d1) :
+    0 ≤ (i : Int) * o0 + (k : Int) ∧ (i : Int) * o0 + (k : Int) < o0 * (d0 : Int) := by
+  have ho : (0 : Int) ≤ o0 := by omega
+  have h0 : (0 : Int) ≤ (i : Int) * o0 := Int.mul_nonneg (by omega) ho
+  have h1 : ((i : Int) + 1) * o0 ≤ (d0 : Int) * o0 := Int.mul_le_mul_of_nonneg_right (by omega) ho
+  have h2 : ((i : Int) + 1) * o0 = (i : Int) * o0 + o0 := by ring
+  have h3 : (d0 : Int) * o0 = o0 * (d0 : Int) := by ring
+  omega
+
+theorem packRowMajor_addr (pw d0 d1 : Nat) (i k : Nat) :
+    (packRowMajor pw d0 d1).addr i k = (i : Int) * (packRowMajor pw d0 d1).o0 + (k : Int) := by
+  simp only [View2.addr, packRowMajor_base, packRowMajor_o1]; omega
+
+end Forward
+
+/-! ### end to end: the sweep over everything a product records, copies included -/
+
+section Pipeline
+variable {α : Type} [CommRing α]
+
+theorem mem_ops_cases {a b : Bool} {n : Nat} {f g : Nat → α × Ptr} {op : α × Ptr}
+    (h : op ∈ (if a then (List.range n).map f else []) ++ (if b then (List.range n).map g else [])) :
+    (a = true ∧ ∃ k, k < n ∧ op = f k) ∨ (b = true ∧ ∃ k, k < n ∧ op = g k) := by
+  rcases List.mem_append.1 h with h | h
+  · left
+    cases a
+    · simp at h
+    · simp only [if_true, List.mem_map, List.mem_range] at h
+      obtain ⟨k, hk, e⟩ := h
+      exact ⟨rfl, k, hk, e.symm⟩
+  · right
+    cases b
+    · simp at h
+    · simp only [if_true, List.mem_map, List.mem_range] at h
+      obtain ⟨k, hk, e⟩ := h
+      exact ⟨rfl, k, hk, e.symm⟩
+
+theorem prepRecord_copy {pw : Nat} (g : Grad) (A : Mat α) (t : Int) (h : needsCopy A.v = true) :
+    prepRecord pw g A t = ({ act := g.act, blk := .T, g0 := t }, copyRecord g A (packRowMajor pw A.v.d0 A.v.d1) t,
+      if g.act then t + (packRowMajor pw A.v.d0 A.v.d1).o0 * (A.v.d0 : Int) else t) := by
+  unfold prepRecord; rw [if_pos h]; rfl
+
+theorem prepRecord_nocopy {pw : Nat} (g : Grad) (A : Mat α) (t : Int) (h : needsCopy A.v = false) :
+    prepRecord pw g A t = (g, [], t) := by
+  unfold prepRecord; rw [if_neg (by simp [h])]
+
+theorem prep_copy {pw : Nat} (A : Mat α) (h : needsCopy A.v = true) : prep pw A = copyMat pw A := by
+  unfold prep; rw [if_pos h]
+
+theorem prep_nocopy {pw : Nat} (A : Mat α) (h : needsCopy A.v = false) : prep pw A = A := by
+  unfold prep; rw [if_neg (by simp [h])]
+
+theorem blk_ne_T {g : Grad} (hg : g.blk = .L ∨ g.blk = .R) : g.blk ≠ .T := by
+  rcases hg with h | h <;> rw [h] <;> decide
+theorem blk_ne_C {g : Grad} (hg : g.blk = .L ∨ g.blk = .R) : g.blk ≠ .C := by
+  rcases hg with h | h <;> rw [h] <;> decide
+
+/-- nothing that `matmul` records from `T+t` on assigns a gradient index of the operand's elements: they are not result
+    indices, and if they are `T` indices (an operand `promote_array` converted before `matmul_` was entered) they lie below `t` -/
+def GradOutside (g : Grad) (A : Mat α) (t : Int) : Prop :=
+  g.blk ≠ .C ∧ (g.blk = .T → ∀ i k, i < A.v.d0 → k < A.v.d1 → g.g0 + A.v.addr i k < t)
+
+def GradOutsideV (g : Grad) (x : Vec α) (t : Int) : Prop :=
+  g.blk ≠ .C ∧ (g.blk = .T → ∀ k, k < x.v.d → g.g0 + x.v.addr k < t)
+
+/-- an operand whose gradients live in the caller's blocks -/
+theorem GradOutside.of_operand {g : Grad} (hg : g.blk = .L ∨ g.blk = .R) (A : Mat α) (t : Int) : GradOutside g A t :=
+  ⟨blk_ne_C hg, fun h => absurd h (blk_ne_T hg)⟩
+theorem GradOutsideV.of_operand {g : Grad} (hg : g.blk = .L ∨ g.blk = .R) (x : Vec α) (t : Int) : GradOutsideV g x t :=
+  ⟨blk_ne_C hg, fun h => absurd h (blk_ne_T hg)⟩
+
+theorem GradOutside.mono {g : Grad} {A : Mat α} {t t' : Int} (h : GradOutside g A t) (ht : t ≤ t') : GradOutside g A t' :=
+  ⟨h.1, fun hb i k hi hk => by have := h.2 hb i k hi hk; omega⟩
+
+theorem GradOutside.T {g : Grad} {A : Mat α} {t : Int} (h : GradOutside g A t) : GradOutside g A.T t :=
+  ⟨h.1, fun hb i k hi hk => by
+    have := h.2 hb k i hk hi
+    have e : A.T.v.addr i k = A.v.addr k i := View2.T_addr A.v i k
+    rw [e]; exact this⟩
+
+/-- a pointer outside the range `[t, t')` of `T`, from `GradOutside` -/
+theorem GradOutside.frame {g : Grad} {A : Mat α} {t t' : Int} (h : GradOutside g A t) {i k : Nat} (hi : i < A.v.d0) (hk : k < A.v.d1) :
+    (g.idx (A.v.addr i k)).buf ≠ .T ∨ (g.idx (A.v.addr i k)).off < t ∨ t' ≤ (g.idx (A.v.addr i k)).off := by
+  by_cases hb : g.blk = .T
+  · exact Or.inr (Or.inl (h.2 hb i k hi hk))
+  · exact Or.inl hb
+
+theorem GradOutsideV.frame {g : Grad} {x : Vec α} {t t' : Int} (h : GradOutsideV g x t) {k : Nat} (hk : k < x.v.d) :
+    (g.idx (x.v.addr k)).buf ≠ .T ∨ (g.idx (x.v.addr k)).off < t ∨ t' ≤ (g.idx (x.v.addr k)).off := by
+  by_cases hb : g.blk = .T
+  · exact Or.inr (Or.inl (h.2 hb k hk))
+  · exact Or.inl hb
+
+/-- the element-wise conversion / copy into a fresh packed array whose gradient block is `T+t …`: the sweep over its
+    statements leaves `Σ src` in the gradient index of each element and touches nothing outside `T ∩ [t, t + o0·d0)`,
+    provided the statements do not read what they assign -/
+theorem convRecord_spec {pw : Nat} (hpw : 1 ≤ pw) (d0 d1 : Nat) (t : Int) (src : Nat → Nat → List (α × Ptr))
+    (hsrc : ∀ i k, i < d0 → k < d1 → ∀ op ∈ src i k, op.2.buf ≠ .T ∨ op.2.off < t) (d : Ptr → α) :
+    (∀ p : Ptr, (p.buf ≠ .T ∨ p.off < t ∨ t + (packRowMajor pw d0 d1).o0 * (d0 : Int) ≤ p.off) →
+        fwd (convRecord (packRowMajor pw d0 d1) t d0 d1 src) d p = d p) ∧
+    (∀ i k, i < d0 → k < d1 →
+        fwd (convRecord (packRowMajor pw d0 d1) t d0 d1 src) d ⟨.T, t + (packRowMajor pw d0 d1).addr i k⟩ = opsVal (src i k) d) := by
+  have hge := packRowMajor_o0_ge hpw d0 d1
+  have hmem : ∀ s ∈ convRecord (packRowMajor pw d0 d1) t d0 d1 src, ∃ i k, i < d0 ∧ k < d1 ∧
+      s = ({ lhs := ⟨.T, t + (packRowMajor pw d0 d1).addr i k⟩, ops := src i k } : Stmt α) := fun s hs => mem_pairs.1 hs
+  constructor
+  · intro p hp
+    apply fwd_frame
+    intro s hs e
+    obtain ⟨i, k, hi, hk, rfl⟩ := hmem s hs
+    have hb := rowmajor_bound (d0 := d0) hge hi hk
+    rw [← packRowMajor_addr] at hb
+    rcases hp with hp | hp | hp
+    · exact hp (by rw [← e])
+    · rw [← e] at hp; simp only at hp; omega
+    · rw [← e] at hp; simp only at hp; omega
+  · intro i k hi hk
+    have hs : ({ lhs := ⟨.T, t + (packRowMajor pw d0 d1).addr i k⟩, ops := src i k } : Stmt α) ∈
+        convRecord (packRowMajor pw d0 d1) t d0 d1 src := mem_pairs.2 ⟨i, k, hi, hk, rfl⟩
+    refine fwd_hit (S := convRecord (packRowMajor pw d0 d1) t d0 d1 src) ?_ ?_ d _ hs
+    · intro s hs op hop s' hs' e
+      obtain ⟨i1, k1, hi1, hk1, rfl⟩ := hmem s hs
+      obtain ⟨i2, k2, hi2, hk2, rfl⟩ := hmem s' hs'
+      have hb := rowmajor_bound (d0 := d0) hge hi2 hk2
+      rw [← packRowMajor_addr] at hb
+      rcases hsrc i1 k1 hi1 hk1 op hop with h | h
+      · exact h (by rw [← e])
+      · rw [← e] at h; simp only at h; omega
+    · intro s hs s' hs' e
+      obtain ⟨i1, k1, _, hk1, rfl⟩ := hmem s hs
+      obtain ⟨i2, k2, _, hk2, rfl⟩ := hmem s' hs'
+      simp only [Ptr.mk.injEq, true_and, packRowMajor_addr] at e
+      obtain ⟨rfl, rfl⟩ := rowmajor_inj (i := i1) (i' := i2) hge hk1 hk2 (by omega)
+      rfl
+
+/-- what `prep` does to the gradients of an operand: the statements assign only `T` indices in `[t, t')`; the element
+    `(i,k)` of the array handed on has a gradient index outside `C`, below `t'` if it is a `T` index, and after the sweep
+    it carries the differential of the operand's element `(i,k)` -/
+theorem prepRecord_spec {pw : Nat} (hpw : 1 ≤ pw) (g : Grad) (A : Mat α) (t : Int) (hg : GradOutside g A t) (d : Ptr → α) :
+    (prepRecord pw g A t).1.act = g.act ∧ t ≤ (prepRecord pw g A t).2.2 ∧
+    (∀ p : Ptr, (p.buf ≠ .T ∨ p.off < t ∨ (prepRecord pw g A t).2.2 ≤ p.off) → fwd (prepRecord pw g A t).2.1 d p = d p) ∧
+    (g.act = true → ∀ i k, i < A.v.d0 → k < A.v.d1 →
+        ((prepRecord pw g A t).1.idx ((prep pw A).v.addr i k)).buf ≠ .C ∧
+        (((prepRecord pw g A t).1.idx ((prep pw A).v.addr i k)).buf = .T →
+            ((prepRecord pw g A t).1.idx ((prep pw A).v.addr i k)).off < (prepRecord pw g A t).2.2) ∧
+        fwd (prepRecord pw g A t).2.1 d ((prepRecord pw g A t).1.idx ((prep pw A).v.addr i k)) = d (g.idx (A.v.addr i k))) := by
+  cases hc : needsCopy A.v
+  · -- handed on unchanged
+    rw [prepRecord_nocopy g A t hc, prep_nocopy A hc]
+    refine ⟨rfl, Int.le_refl _, fun _ _ => rfl, ?_⟩
+    intro _ i k hi hk
+    exact ⟨hg.1, fun h => hg.2 h i k hi hk, rfl⟩
+  · rw [prepRecord_copy g A t hc, prep_copy A hc]
+    have hge := packRowMajor_o0_ge hpw A.v.d0 A.v.d1
+    have hvol : (0 : Int) ≤ (packRowMajor pw A.v.d0 A.v.d1).o0 * (A.v.d0 : Int) :=
+      Int.mul_nonneg (by omega) (by omega)
+    have hsrc : ∀ i k, i < A.v.d0 → k < A.v.d1 → ∀ op ∈ [((1 : α), g.idx (A.v.addr i k))], op.2.buf ≠ .T ∨ op.2.off < t := by
+      intro i k hi hk op hop
+      simp only [List.mem_singleton] at hop
+      subst hop
+      rcases hg.frame (t' := t) hi hk with h | h | h
+      · exact Or.inl h
+      · exact Or.inr h
+      · by_cases hb : g.blk = .T
+        · exact Or.inr (hg.2 hb i k hi hk)
+        · exact Or.inl hb
+    obtain ⟨hfr, hval⟩ := convRecord_spec hpw A.v.d0 A.v.d1 t (fun (i k : Nat) => [((1 : α), g.idx (A.v.addr i k))]) hsrc d
+    refine ⟨rfl, ?_, ?_, ?_⟩
+    · show t ≤ (if g.act then _ else t)
+      split <;> omega
+    · intro p hp
+      unfold copyRecord
+      cases hact : g.act
+      · rfl
+      · simp only [hact, if_true] at hp ⊢
+        exact hfr p hp
+    · intro hact i k hi hk
+      have hb := rowmajor_bound (d0 := A.v.d0) hge hi hk
+      rw [← packRowMajor_addr] at hb
+      have hv : (copyMat pw A).v = packRowMajor pw A.v.d0 A.v.d1 := rfl
+      rw [hv]
+      refine ⟨by simp only [Grad.idx]; decide, fun _ => ?_, ?_⟩
+      · simp only [Grad.idx, hact, if_true]; omega
+      · unfold copyRecord
+        rw [if_pos hact]
+        simp only [Grad.idx] at hval ⊢
+        rw [hval i k hi hk]
+        simp [opsVal]
+
+/-- matrix · matrix, every layout (operands handed on as they are or copied, in every combination): after the sweep
+    over everything that was recorded the gradient index of result element `(i,j)` holds
+    `Σₖ R[k,j]·dL[i,k] + L[i,k]·dR[k,j]` in terms of the differentials of the ORIGINAL operands' cells -/
+theorem matmulMMTape_fwd {pw : Nat} (hpw : 1 ≤ pw) (gl gr : Grad) (t : Int) (L Rm : Mat α)
+    (hgl : GradOutside gl L t) (hgr : GradOutside gr Rm t)
+    (hact : (gl.act || gr.act) = true) (hkk : L.v.d1 = Rm.v.d0) (d : Ptr → α)
+    {i j : Nat} (hi : i < L.v.d0) (hj : j < Rm.v.d1) :
+    fwd (matmulMMTape pw gl gr t L Rm) d ⟨.C, (gemmDense pw (prep pw L) (prep pw Rm)).ans.v.addr i j⟩ =
+      sumTo (fun k => (if gl.act then Rm.get k j * d (gl.idx (L.v.addr i k)) else 0) +
+                      (if gr.act then L.get i k * d (gr.idx (Rm.v.addr k j)) else 0)) L.v.d1 := by
+  obtain ⟨hLa, hLt, hLf, hLe⟩ := prepRecord_spec hpw gl L t hgl d
+  obtain ⟨hRa, -, hRf, hRe⟩ := prepRecord_spec hpw gr Rm (prepRecord pw gl L t).2.2 (hgr.mono hLt) (fwd (prepRecord pw gl L t).2.1 d)
+  unfold matmulMMTape
+  simp only []
+  rw [fwd_append, fwd_append]
+  generalize hpl : prepRecord pw gl L t = pl at *
+  generalize hpr : prepRecord pw gr Rm pl.2.2 = pr at *
+  have hol : (gemmDense pw (prep pw L) (prep pw Rm)).l = prep pw L := rfl
+  have hor : (gemmDense pw (prep pw L) (prep pw Rm)).r = prep pw Rm := rfl
+  have hov : (gemmDense pw (prep pw L) (prep pw Rm)).ans.v = packRowMajor pw L.v.d0 Rm.v.d1 := by
+    show packRowMajor pw (prep pw L).v.d0 (prep pw Rm).v.d1 = _
+    rw [prep_d0, prep_d1]
+  rw [hol, hor, hov, gemmRecord_eq' _ _ _ _ _ (by rw [hLa, hRa]; exact hact)]
+  have hge := packRowMajor_o0_ge hpw L.v.d0 Rm.v.d1
+  have hRd0 : (prep pw Rm).v.d0 = Rm.v.d0 := prep_d0 pw Rm
+  generalize hS : pairs (packRowMajor pw L.v.d0 Rm.v.d1).d0 (packRowMajor pw L.v.d0 Rm.v.d1).d1
+    (gemmStmt pl.1 pr.1 (prep pw L) (prep pw Rm) (packRowMajor pw L.v.d0 Rm.v.d1)) = S
+  have hmemS : ∀ s ∈ S, ∃ i j, i < L.v.d0 ∧ j < Rm.v.d1 ∧
+      s = gemmStmt pl.1 pr.1 (prep pw L) (prep pw Rm) (packRowMajor pw L.v.d0 Rm.v.d1) i j := by
+    intro s hs
+    rw [← hS] at hs
+    exact mem_pairs.1 hs
+  have hsij : gemmStmt pl.1 pr.1 (prep pw L) (prep pw Rm) (packRowMajor pw L.v.d0 Rm.v.d1) i j ∈ S := by
+    rw [← hS]
+    exact mem_pairs.2 ⟨i, j, hi, hj, rfl⟩
+  have hhit := fwd_hit (S := S) ?_ ?_ (fwd pr.2.1 (fwd pl.2.1 d)) _ hsij
+  · show fwd S _ (gemmStmt pl.1 pr.1 (prep pw L) (prep pw Rm) (packRowMajor pw L.v.d0 Rm.v.d1) i j).lhs = _
+    rw [hhit, Stmt.diff_eq]
+    show opsVal (_ ++ _) _ = _
+    rw [gemm_stmt_diff, hRd0, ← hkk]
+    apply sumTo_congr
+    intro k hk
+    congr 1
+    · rw [hLa]
+      cases hga : gl.act
+      · rfl
+      · simp only [if_true]
+        obtain ⟨-, hT, hval⟩ := hLe hga i k hi hk
+        rw [prep_get hpw Rm (by omega) hj, hRf _ ?_, hval]
+        by_cases hb : (pl.1.idx ((prep pw L).v.addr i k)).buf = .T
+        · exact Or.inr (Or.inl (hT hb))
+        · exact Or.inl hb
+    · rw [hRa]
+      cases hga : gr.act
+      · rfl
+      · simp only [if_true]
+        obtain ⟨-, -, hval⟩ := hRe hga k j (by omega) hj
+        rw [prep_get hpw L hi hk, hval, hLf _ (hgr.frame (by omega) hj)]
+  · -- no statement of the product reads a result index
+    intro s hs op hop s' hs' e
+    obtain ⟨i1, j1, hi1, hj1, rfl⟩ := hmemS s hs
+    obtain ⟨i2, j2, _, _, rfl⟩ := hmemS s' hs'
+    rcases mem_ops_cases hop with ⟨ha, k, hk, rfl⟩ | ⟨ha, k, hk, rfl⟩
+    · rw [hLa] at ha
+      exact (hLe ha i1 k hi1 (by omega)).1 (congrArg Ptr.buf e).symm
+    · rw [hRa] at ha
+      exact (hRe ha k j1 (by omega) hj1).1 (congrArg Ptr.buf e).symm
+  · intro s hs s' hs' e
+    obtain ⟨i1, j1, _, hj1, rfl⟩ := hmemS s hs
+    obtain ⟨i2, j2, _, hj2, rfl⟩ := hmemS s' hs'
+    simp only [gemmStmt, Ptr.mk.injEq, true_and, packRowMajor_addr] at e
+    obtain ⟨rfl, rfl⟩ := rowmajor_inj (i := i1) (i' := i2) hge hj1 hj2 e
+    rfl
+
+/-- matrix · vector, every layout of the matrix (copied or not) and every stride of the vector -/
+theorem matmulMVTape_fwd {pw : Nat} (hpw : 1 ≤ pw) (gl gr : Grad) (t : Int) (L : Mat α) (x : Vec α)
+    (hgl : GradOutside gl L t) (hgr : GradOutsideV gr x t)
+    (hact : (gl.act || gr.act) = true) (hkk : L.v.d1 = x.v.d) (d : Ptr → α)
+    {i : Nat} (hi : i < L.v.d0) :
+    fwd (matmulMVTape pw gl gr t L x) d ⟨.C, (gemvDense (prep pw L) x).ans.v.addr i⟩ =
+      sumTo (fun k => (if gl.act then x.get k * d (gl.idx (L.v.addr i k)) else 0) +
+                      (if gr.act then L.get i k * d (gr.idx (x.v.addr k)) else 0)) L.v.d1 := by
+  unfold matmulMVTape
+  simp only []
+  obtain ⟨t1, ht1, het1⟩ : ∃ t1, t ≤ t1 ∧ (if (needsCopy L.v && (gl.act || gr.act)) = true then t + (L.v.d0 : Int) else t) = t1 := by
+    refine ⟨_, ?_, rfl⟩
+    split <;> omega
+  rw [het1]
+  obtain ⟨hLa, -, hLf, hLe⟩ := prepRecord_spec hpw gl L t1 (hgl.mono ht1) d
+  rw [fwd_append]
+  generalize hpl : prepRecord pw gl L t1 = pl at *
+  have hol : (gemvDense (prep pw L) x).l = prep pw L := rfl
+  have hov : (gemvDense (prep pw L) x).ans.v = { base := 0, d := L.v.d0, o := 1 } := by
+    show ({ base := 0, d := (prep pw L).v.d0, o := 1 } : View1) = _
+    rw [prep_d0]
+  rw [hol, hov, gemvRecord_eq' _ _ _ _ _ (by rw [hLa]; exact hact)]
+  generalize hS : (List.range ({ base := 0, d := L.v.d0, o := 1 } : View1).d).map
+    (gemvStmt pl.1 gr (prep pw L) x { base := 0, d := L.v.d0, o := 1 }) = S
+  have hmemS : ∀ s ∈ S, ∃ i, i < L.v.d0 ∧ s = gemvStmt pl.1 gr (prep pw L) x { base := 0, d := L.v.d0, o := 1 } i := by
+    intro s hs
+    rw [← hS] at hs
+    obtain ⟨i, hi, rfl⟩ := List.mem_map.1 hs
+    exact ⟨i, List.mem_range.1 hi, rfl⟩
+  have hsi : gemvStmt pl.1 gr (prep pw L) x { base := 0, d := L.v.d0, o := 1 } i ∈ S := by
+    rw [← hS]
+    exact List.mem_map.2 ⟨i, List.mem_range.2 hi, rfl⟩
+  have hhit := fwd_hit (S := S) ?_ ?_ (fwd pl.2.1 d) _ hsi
+  · show fwd S _ (gemvStmt pl.1 gr (prep pw L) x { base := 0, d := L.v.d0, o := 1 } i).lhs = _
+    rw [hhit, Stmt.diff_eq]
+    show opsVal (_ ++ _) _ = _
+    rw [gemv_stmt_diff, ← hkk]
+    apply sumTo_congr
+    intro k hk
+    congr 1
+    · rw [hLa]
+      cases hga : gl.act
+      · rfl
+      · simp only [if_true]
+        rw [(hLe hga i k hi hk).2.2]
+    · cases hga : gr.act
+      · rfl
+      · simp only [if_true]
+        have hfr : (gr.idx (x.v.addr k)).buf ≠ .T ∨ (gr.idx (x.v.addr k)).off < t1 ∨ pl.2.2 ≤ (gr.idx (x.v.addr k)).off := by
+          rcases hgr.frame (t' := pl.2.2) (show k < x.v.d by omega) with h | h | h
+          · exact Or.inl h
+          · exact Or.inr (Or.inl (by omega))
+          · exact Or.inr (Or.inr h)
+        rw [prep_get hpw L hi hk, hLf _ hfr]
+  · intro s hs op hop s' hs' e
+    obtain ⟨i1, hi1, rfl⟩ := hmemS s hs
+    obtain ⟨i2, _, rfl⟩ := hmemS s' hs'
+    rcases mem_ops_cases hop with ⟨ha, k, hk, rfl⟩ | ⟨ha, k, hk, rfl⟩
+    · rw [hLa] at ha
+      exact (hLe ha i1 k hi1 (by omega)).1 (congrArg Ptr.buf e).symm
+    · exact hgr.1 (congrArg Ptr.buf e).symm
+  · intro s hs s' hs' e
+    obtain ⟨i1, _, rfl⟩ := hmemS s hs
+    obtain ⟨i2, _, rfl⟩ := hmemS s' hs'
+    simp only [gemvStmt, Ptr.mk.injEq, true_and, View1.addr] at e
+    have : i1 = i2 := by omega
+    subst this
+    rfl
+
+/-- vector · matrix (recorded as `matmul_(right.T(), left)`) -/
+theorem matmulVMTape_fwd {pw : Nat} (hpw : 1 ≤ pw) (gl gr : Grad) (t : Int) (x : Vec α) (Rm : Mat α)
+    (hgl : GradOutsideV gl x t) (hgr : GradOutside gr Rm t)
+    (hact : (gl.act || gr.act) = true) (hkk : x.v.d = Rm.v.d0) (d : Ptr → α)
+    {j : Nat} (hj : j < Rm.v.d1) :
+    fwd (matmulVMTape pw gl gr t x Rm) d ⟨.C, (gemvDense (prep pw Rm.T) x).ans.v.addr j⟩ =
+      sumTo (fun k => (if gl.act then Rm.get k j * d (gl.idx (x.v.addr k)) else 0) +
+                      (if gr.act then x.get k * d (gr.idx (Rm.v.addr k j)) else 0)) Rm.v.d0 := by
+  unfold matmulVMTape
+  rw [matmulMVTape_fwd hpw gr gl t Rm.T x hgr.T hgl (by rw [Bool.or_comm]; exact hact) (by exact hkk.symm) d (by exact hj)]
+  show sumTo _ Rm.v.d0 = _
+  apply sumTo_congr
+  intro k _
+  have : Rm.T.v.addr j k = Rm.v.addr k j := View2.T_addr Rm.v j k
+  rw [Mat.T_get, this, add_comm]
+
+/-- band · active vector, any `(dim, LDiags, UDiags)`, both storage orders, any stride of the vector: after the sweep
+    the gradient index of result element `i` holds `Σₖ B[i,k]·dx[k]` over all `k < dim` -/
+theorem matmulBandVTape_fwd (b : Band α) (gr : Grad) (hgr : gr.blk ≠ .C) (x : Vec α) (hact : gr.act = true)
+    (hd : b.dim = x.v.d) (d : Ptr → α) {i : Nat} (hi : i < b.dim) :
+    fwd (matmulBandVTape b gr x) d ⟨.C, (bandVCore b x).ans.v.addr i⟩ =
+      sumTo (fun k => b.get i k * d (gr.idx (x.v.addr k))) b.dim := by
+  unfold matmulBandVTape
+  have hov : (bandVCore b x).ans.v = { base := 0, d := x.v.d, o := 1 } := rfl
+  rw [hov, bandVRecord_eq' _ _ _ _ hact]
+  generalize hS : (List.range ({ base := 0, d := x.v.d, o := 1 } : View1).d).map
+    (bandStmt b gr x { base := 0, d := x.v.d, o := 1 }) = S
+  have hmemS : ∀ s ∈ S, ∃ i, i < x.v.d ∧ s = bandStmt b gr x { base := 0, d := x.v.d, o := 1 } i := by
+    intro s hs
+    rw [← hS] at hs
+    obtain ⟨i, hi, rfl⟩ := List.mem_map.1 hs
+    exact ⟨i, List.mem_range.1 hi, rfl⟩
+  have hsi : bandStmt b gr x { base := 0, d := x.v.d, o := 1 } i ∈ S := by
+    rw [← hS]
+    exact List.mem_map.2 ⟨i, List.mem_range.2 (by show i < x.v.d; omega), rfl⟩
+  have hhit := fwd_hit (S := S) ?_ ?_ d _ hsi
+  · show fwd S _ (bandStmt b gr x { base := 0, d := x.v.d, o := 1 } i).lhs = _
+    rw [hhit, Stmt.diff_eq]
+    exact band_stmt_diff b gr x hi d
+  · intro s hs op hop s' hs' e
+    obtain ⟨i1, _, rfl⟩ := hmemS s hs
+    obtain ⟨i2, _, rfl⟩ := hmemS s' hs'
+    simp only [bandStmt, List.mem_map, List.mem_range] at hop
+    obtain ⟨l, _, rfl⟩ := hop
+    exact hgr (congrArg Ptr.buf e).symm
+  · intro s hs s' hs' e
+    obtain ⟨i1, _, rfl⟩ := hmemS s hs
+    obtain ⟨i2, _, rfl⟩ := hmemS s' hs'
+    simp only [bandStmt, Ptr.mk.injEq, true_and, View1.addr] at e
+    have : i1 = i2 := by omega
+    subst this
+    rfl
+
+/-- active vector · band (the band matrix re-described as its transpose) -/
+theorem matmulVBandTape_fwd (b : Band α) (gl : Grad) (hgl : gl.blk ≠ .C) (x : Vec α) (hact : gl.act = true)
+    (hd : b.dim = x.v.d) (d : Ptr → α) {j : Nat} (hj : j < b.dim) :
+    fwd (matmulVBandTape gl x b) d ⟨.C, (bandVCore b.T x).ans.v.addr j⟩ =
+      sumTo (fun k => b.get k j * d (gl.idx (x.v.addr k))) b.dim := by
+  unfold matmulVBandTape
+  rw [matmulBandVTape_fwd b.T gl hgl x hact (by exact hd) d (by exact hj)]
+  show sumTo _ b.dim = _
+  apply sumTo_congr
+  intro k _
+  rw [Band.T_get]
+
+/-- an ACTIVE left operand that `promote_array` converted element-wise (expression, special matrix) before `matmul_` was
+    entered: the sweep over the conversion statements followed by everything the product records leaves
+    `Σₖ R[k,j]·(Σ src i k) + X[i,k]·dR[k,j]`, i.e. the differentials flow through the conversion's statements whatever their
+    operations are (`2·`, `1·+1·`, none for a structural zero) -/
+theorem promotedMM_fwd {pw : Nat} (hpw : 1 ≤ pw) (d0 d1 : Nat) (lval : Nat → Nat → α) (src : Nat → Nat → List (α × Ptr))
+    (hsrc : ∀ i k, i < d0 → k < d1 → ∀ op ∈ src i k, op.2.buf ≠ .T ∨ op.2.off < 0)
+    (gr : Grad) (hgr : gr.blk = .L ∨ gr.blk = .R) (Rm : Mat α) (hkk : d1 = Rm.v.d0) (d : Ptr → α)
+    {i j : Nat} (hi : i < d0) (hj : j < Rm.v.d1) :
+    fwd (convRecord (packRowMajor pw d0 d1) 0 d0 d1 src ++
+         matmulMMTape pw ⟨true, .T, 0⟩ gr ((packRowMajor pw d0 d1).o0 * (d0 : Int)) (freshMat pw d0 d1 lval) Rm) d
+        ⟨.C, (gemmDense pw (prep pw (freshMat pw d0 d1 lval)) (prep pw Rm)).ans.v.addr i j⟩ =
+      sumTo (fun k => Rm.get k j * opsVal (src i k) d + (if gr.act then lval i k * d (gr.idx (Rm.v.addr k j)) else 0)) d1 := by
+  have hge := packRowMajor_o0_ge hpw d0 d1
+  obtain ⟨hfr, hval⟩ := convRecord_spec hpw d0 d1 0 src hsrc d
+  have hXv : (freshMat pw d0 d1 lval).v = packRowMajor pw d0 d1 := rfl
+  have hgl : GradOutside (⟨true, .T, 0⟩ : Grad) (freshMat pw d0 d1 lval) ((packRowMajor pw d0 d1).o0 * (d0 : Int)) := by
+    refine ⟨by decide, fun _ i k hi hk => ?_⟩
+    have hb := rowmajor_bound (d0 := d0) hge (show i < d0 from hi) (show k < d1 from hk)
+    rw [hXv, packRowMajor_addr]
+    simp only
+    omega
+  rw [fwd_append, matmulMMTape_fwd hpw ⟨true, .T, 0⟩ gr _ (freshMat pw d0 d1 lval) Rm hgl (GradOutside.of_operand hgr _ _)
+    (by simp) (by exact hkk) _ (by exact hi) hj]
+  show sumTo _ d1 = _
+  apply sumTo_congr
+  intro k hk
+  simp only [if_true]
+  congr 1
+  · have : (⟨true, .T, 0⟩ : Grad).idx ((freshMat pw d0 d1 lval).v.addr i k) = ⟨.T, 0 + (packRowMajor pw d0 d1).addr i k⟩ := rfl
+    rw [this, hval i k hi hk]
+  · cases gr.act
+    · rfl
+    · simp only [if_true]
+      rw [freshMat_get hpw d0 d1 lval hi hk, hfr _ (Or.inl (blk_ne_T hgr))]
+
+end Pipeline
+
 end Adept.Matmul
